@@ -27,6 +27,9 @@ import (
 
 func runPure(run *vk.Run, idx uint64, long bool) {
 	c := vdown.GenPure(run.Rand(1, idx), long)
+	if long && idx%4 == 3 {
+		c = vdown.GenPureCycle(run.Rand(1, idx)) // every fourth long history: a full cycle of withheld packets
+	}
 	var m packetmap.Map
 	withheld := map[int]bool{}
 	outOf := map[int]uint16{}    // source position -> number handed out
@@ -41,7 +44,11 @@ func runPure(run *vk.Run, idx uint64, long bool) {
 	for k, st := range c.Steps {
 		i := st.Idx
 		s := seq(i)
-		if st.Drop && m.Drop(s, uint16(i/3)) {
+		pid := uint16(i / 3)
+		if c.NoPid {
+			pid = 0
+		}
+		if st.Drop && m.Drop(s, pid) {
 			if i > hi {
 				hi = i
 			}
@@ -49,7 +56,7 @@ func runPure(run *vk.Run, idx uint64, long bool) {
 			sinceChange = 0
 			continue
 		}
-		ok, out, _ := m.Map(s, uint16(i/3))
+		ok, out, _ := m.Map(s, pid)
 		if i > hi {
 			hi = i
 			sinceChange++
